@@ -175,7 +175,9 @@ fn diff_tree(a: &Value, b: &Value) -> String {
             match (missing, extra) {
                 (true, false) => return "missing-field-defaulted".into(),
                 (false, true) => return "unknown-field-ignored".into(),
-                (true, true) => return "missing-and-unknown-fields".into(),
+                // a misspelt optional field = unknown key ignored + absent option defaulted; the
+                // enabling root cause is that unknown keys are not rejected
+                (true, true) => return "unknown-field-ignored".into(),
                 _ => {}
             }
             for (k, vx) in x {
